@@ -71,10 +71,13 @@ var pool = func() []poolNum {
 			}
 		}
 	}
-	addF("1e-7")
-	addF("1e21")
-	addF("1.5e300")
-	addF("5e-324")
+	// floats: both signs of ordinary values and of the edges of the float64 range (largest
+	// finite, smallest normal, smallest subnormal, the switch points of the notation)
+	for _, l := range []string{"1e-7", "1e21", "1.5e300", "5e-324", "1.7976931348623157e308", "2.2250738585072014e-308",
+		"2.225073858507201e-308", "0.1", "1.5", "123456.789", "1e20", "1e22", "9.999999999999999e-7", "0.000001", "3.141592653589793"} {
+		addF(l)
+		addF("-" + l)
+	}
 	return p
 }()
 
@@ -189,6 +192,15 @@ func sameJSON(got, want any, path string) string {
 	return ""
 }
 
+func nonFiniteDocs() []jdoc {
+	hi, lo := poolIndex("1.7976931348623157e308"), poolIndex("-1.7976931348623157e308")
+	return []jdoc{
+		{"infinite", hi}, {"-infinite", lo}, {"[infinite, -infinite]", []any{hi, lo}},
+		{"{a: -infinite, b: infinite}", map[string]any{"a": lo, "b": hi}},
+		{"[-infinite] | .[0]", lo}, {"(-1.7976931348623157e308 * 10)", lo}, {"(1.7976931348623157e308 * 10)", hi},
+	}
+}
+
 // JSONCase is one replayable JSON printing case (a whole channel run).
 type JSONCase struct {
 	Kind    string   `json:"kind"` // "json"
@@ -295,6 +307,14 @@ func jchans() []jchan {
 		{"string|fromjson|d", true, func(ds []jdoc) ([]string, map[string][]byte) {
 			return []string{"-n", strs(ds) + " | fromjson | d"}, nil
 		}, nil},
+		// not finite: jq prints an infinity as the largest finite float64 of the same sign
+		{"nonfinite:literal", true, func(ds []jdoc) ([]string, map[string][]byte) { return []string{"-n", lits(ds)}, nil }, nonFiniteDocs},
+		{"nonfinite:tojson", false, func(ds []jdoc) ([]string, map[string][]byte) {
+			return []string{"-nr", "(" + lits(ds) + ") | tojson"}, nil
+		}, nonFiniteDocs},
+		{"nonfinite:tojson|fromjson", true, func(ds []jdoc) ([]string, map[string][]byte) {
+			return []string{"-n", "(" + lits(ds) + ") | tojson | fromjson"}, nil
+		}, nonFiniteDocs},
 		{"decode-tree:-V", true, func(ds []jdoc) ([]string, map[string][]byte) {
 			return []string{"-n", "-V", wideBytes + ` | tobytes | decode("vdsl"; {prog: ` + jqString(wideProg) + `})`}, nil
 		}, wideDocs},
